@@ -14,6 +14,20 @@ R19b  whichever way a file arrives its config is built by the same constructor:
       the string driver applies ``process_raw_file_for_config`` to a copy.
 R19c  every fix driver reads the fixable/unfixable counts that decide its exit
       status *after* the discard step it performs on the same result.
+
+Accepted spellings (all decided on reaching definitions / origins, never on local names):
+R19a  the config read through a local (``file_config = parsed.config``) is the same access
+      path as the spelled-out chain, provided the root is the same binding; pack built
+      inline; positional or keyword arguments; a forwarder's subject derived from its own
+      parameter through positional or keyword arguments.
+R19b  the loader's tuple written in the ``return`` or held whole in a local;
+      ``make_child_from_path(fname)`` / ``(path=fname)``; the child config assigned to
+      ``<linter>.config`` in place or through a local; ``stdin_filename`` handed to
+      ``lint_string_wrapped`` by keyword or position; the receiver of
+      ``process_raw_file_for_config`` is the config by name or by identical origin.
+R19c  a count read off the variable of a comprehension / ``for`` loop over
+      ``<result>.paths`` is a read on ``<result>``; the discard helper may get the result
+      by position or keyword.
 """
 
 from __future__ import annotations
@@ -284,6 +298,12 @@ def _r19a(chk, repo) -> None:
         if last_attr(c) == "ParsedString":
             n += 1
             e = kwarg(c, "config")
+            if e is None:
+                # positional construction: the position of the ``config`` field of the tuple class
+                r = repo.resolve_name(repo.mod(LINTER), "ParsedString")
+                fields = [x.target.id for x in r[1].body if isinstance(x, ast.AnnAssign) and isinstance(x.target, ast.Name)] if r and isinstance(r[1], ast.ClassDef) else []
+                if "config" in fields and fields.index("config") < len(c.args) and not any(isinstance(a, ast.Starred) for a in c.args):
+                    e = c.args[fields.index("config")]
             params = [a.arg for a in pr.args.args]
             ap = _access_path(cfg, e, cfg.stmt_of(c)) if e is not None else None
             chk.require(
@@ -387,6 +407,11 @@ def _child_config_goal(repo, func, call, recv: Optional[str], sf: ast.expr, dept
     def atom(e, stmt):
         if isinstance(e, ast.Name) and e.id == X:
             return f"HAS:{X}"
+        # ``bool(<filename>)`` is the same truth test (also when held in a flag local, which
+        # PathFacts tracks as ``flag <-> HAS``)
+        if isinstance(e, ast.Call) and isinstance(e.func, ast.Name) and e.func.id == "bool" and len(e.args) == 1 and not e.keywords \
+                and isinstance(e.args[0], ast.Name) and e.args[0].id == X:
+            return f"HAS:{X}"
         return None
 
     def events(stmt):
@@ -474,10 +499,43 @@ def _exit_relevant_names(f) -> set:
     return rel
 
 
+def _count_root(counts, cfg, node: ast.AST, name: str, at, depth: int = 0) -> Optional[str]:
+    """The object a count read hangs off.  ``d.num_unfixable_lint_errors`` with ``d`` the
+    variable of an enclosing comprehension or ``for`` loop over ``<result>.paths`` is a read
+    on ``<result>`` (the generator inside ``sum(...)`` is the same thing spelled inline);
+    plain aliases and member aliases are followed by ``Counts._canon_root``."""
+    if depth > 6:
+        return name
+    # (a) bound by an enclosing comprehension of the read itself
+    p = getattr(node, "_parent", None)
+    while p is not None and not isinstance(p, FuncNode):
+        if isinstance(p, (ast.GeneratorExp, ast.ListComp, ast.SetComp, ast.DictComp)):
+            for g in p.generators:
+                if any(isinstance(t, ast.Name) and t.id == name for t in ast.walk(g.target)):
+                    r = root_name(g.iter)
+                    return _count_root(counts, cfg, p, r, at, depth + 1) if r else name
+        p = getattr(p, "_parent", None)
+    # (b) the target of a ``for`` statement
+    ds = cfg.reaching().defs_at(at, name) if at is not None else set()
+    if ds and all(d.kind == "for" for d in ds):
+        roots = set()
+        for d in ds:
+            r = root_name(d.value)
+            roots.add(_count_root(counts, cfg, d.stmt, r, d.stmt, depth + 1) if r else None)
+        if len(roots) == 1 and None not in roots:
+            return next(iter(roots))
+        return name
+    canon = counts._canon_root(cfg, name, at)
+    if canon is not None and canon != name:
+        return _count_root(counts, cfg, node, canon, at, depth + 1)
+    return name
+
+
 def _r19c(chk, repo) -> None:
     counts = Counts(repo)
     summaries = discard_summaries(repo, counts)
     n_drivers = 0
+    counted_stmts = set()
     for m in repo.iter_modules("src/sqlfluff/"):
         if any(m.relpath.startswith(p) for p in EXCLUDED):
             continue
@@ -491,8 +549,10 @@ def _r19c(chk, repo) -> None:
                     discards.append((cfg.stmt_of(c), counts._canon_root(cfg, root_name(c.func.value), cfg.stmt_of(c))))
                 elif last_attr(c) in summaries and isinstance(c.func, ast.Name):
                     hf, ri, fi = summaries[last_attr(c)]
-                    if ri < len(c.args):
-                        discards.append((cfg.stmt_of(c), counts._canon_root(cfg, root_name(c.args[ri]), cfg.stmt_of(c))))
+                    # the result object, handed over by position or by keyword
+                    res_arg = _bound_arg(hf, c, hf.args.args[ri].arg)
+                    if res_arg is not None:
+                        discards.append((cfg.stmt_of(c), counts._canon_root(cfg, root_name(res_arg), cfg.stmt_of(c))))
             exits = [c for c in calls_in(f) if call_name(c) == "sys.exit"]
             if not discards or not exits:
                 continue
@@ -505,7 +565,7 @@ def _r19c(chk, repo) -> None:
                 if ci is None or ci.fixable is None:
                     continue
                 st = cfg.stmt_of(n)
-                root = counts._canon_root(cfg, ci.root, st) if ci.root else None
+                root = _count_root(counts, cfg, n, ci.root, st) if ci.root else None
                 same = [d for d, r in discards if r == root]
                 if not same:
                     continue
@@ -527,7 +587,9 @@ def _r19c(chk, repo) -> None:
                     infl = True
                 if not infl:
                     continue
-                chk.count("R19c.exit_deciding_reads")
+                if id(st) not in counted_stmts:  # one site = one statement (sum(...) and the attribute inside it are one read)
+                    counted_stmts.add(id(st))
+                    chk.count("R19c.exit_deciding_reads")
                 ok = any(cfg.dominates(d, st) and d is not st for d in same)
                 chk.require(
                     ok, "R19c", n,
@@ -544,24 +606,185 @@ def _r19c(chk, repo) -> None:
 from ..selftest import Variant  # noqa: E402
 
 VARIANTS = [
+    # behaviour-preserving refactors: must stay quiet
+    Variant(
+        "quiet-stdin-fix-option-read-inline", CLI,
+        "            _stdin_fix(lnt, formatter, fix_even_unparsable, stdin_filename)\n",
+        "            _stdin_fix(lnt, formatter, config.get(\"fix_even_unparsable\"), stdin_filename)\n",
+        "QUIET", None, "R19d: same root-config read, spelled inline at one call site",
+    ),
+    Variant(
+        "quiet-stdin-fix-counts-after-discard-renamed", CLI,
+        "    if result.num_violations(types=SQLLintError, fixable=True) > 0:\n        stdout = result.paths[0].files[0].fix_string()[0]\n",
+        "    fixable_left = result.num_violations(types=SQLLintError, fixable=True)\n    if fixable_left > 0:\n        stdout = result.paths[0].files[0].fix_string()[0]\n",
+        "QUIET", None, "R19c: fixable count (read after the discard step) held in a local",
+    ),
+    Variant(
+        'quiet-lint_string-config-through-local', LINTER,
+        '        rule_pack = self.get_rulepack(config=parsed.config)\n        # Lint the file and return the LintedFile',
+        '        file_config = parsed.config\n        rule_pack = self.get_rulepack(config=file_config)\n        # Lint the file and return the LintedFile',
+        "QUIET", None, "R19a: the parsed file's config read through a local before the pack is built",
+    ),
+    Variant(
+        'quiet-lint_string-pack-inline-keywords', LINTER,
+        '        rule_pack = self.get_rulepack(config=parsed.config)\n        # Lint the file and return the LintedFile\n        return self.lint_parsed(\n            parsed,\n            rule_pack,\n',
+        '        # Lint the file and return the LintedFile\n        return self.lint_parsed(\n            parsed=parsed,\n            rule_pack=self.get_rulepack(parsed.config),\n',
+        "QUIET", None, 'R19a: pack built inline, config positional, driver arguments by keyword',
+    ),
+    Variant(
+        'quiet-lint_parsed-config-hoisted', LINTER,
+        '            variant_source_patches = []\n            (\n                fixed_tree,\n                initial_linting_errors,\n                ignore_mask,\n                rule_timings,\n            ) = cls.lint_fix_parsed(\n                root_variant.tree,\n                config=parsed.config,\n',
+        '            variant_source_patches = []\n            file_config = parsed.config\n            (\n                fixed_tree,\n                initial_linting_errors,\n                ignore_mask,\n                rule_timings,\n            ) = cls.lint_fix_parsed(\n                root_variant.tree,\n                config=file_config,\n',
+        "QUIET", None, 'R19a forwarder: parsed.config handed to lint_fix_parsed through a local',
+    ),
+    Variant(
+        'quiet-lint_rendered-parse-keyword', LINTER,
+        '        parsed = cls.parse_rendered(rendered)\n        return cls.lint_parsed(\n            parsed,\n',
+        '        parsed_file = cls.parse_rendered(rendered=rendered)\n        return cls.lint_parsed(\n            parsed_file,\n',
+        "QUIET", None, 'R19a forwarder: subject derived from the own parameter through a keyword argument, local renamed',
+    ),
+    Variant(
+        'quiet-parse_rendered-config-local', LINTER,
+        '        return ParsedString(\n            parsed_variants=parsed_variants,\n            templating_violations=rendered.templater_violations,\n            time_dict=time_dict,\n            config=rendered.config,\n',
+        '        file_config = rendered.config\n        return ParsedString(\n            parsed_variants=parsed_variants,\n            templating_violations=rendered.templater_violations,\n            time_dict=time_dict,\n            config=file_config,\n',
+        "QUIET", None, 'R19a: ParsedString gets rendered.config through a local',
+    ),
+    Variant(
+        'quiet-apply-config-local-positional', RUNNER,
+        '                rule_pack = linter.get_rulepack(config=rendered.config)\n                return Linter.lint_rendered(rendered, rule_pack, task.fix, None)',
+        '                file_config = rendered.config\n                pack = linter.get_rulepack(file_config)\n                return Linter.lint_rendered(rendered, rule_pack=pack, fix=task.fix, formatter=None)',
+        "QUIET", None, 'R19a: worker shim reads rendered.config into a local, pack renamed, driver arguments by keyword',
+    ),
+    Variant(
+        'quiet-iter_partials-linter-alias', RUNNER,
+        '            rule_pack = self.linter.get_rulepack(config=rendered.config)\n            yield (\n                fname,\n                functools.partial(\n                    self.linter.lint_rendered,',
+        '            linter = self.linter\n            rule_pack = linter.get_rulepack(config=rendered.config)\n            yield (\n                fname,\n                functools.partial(\n                    linter.lint_rendered,',
+        "QUIET", None, 'R19a: self.linter aliased before get_rulepack / functools.partial',
+    ),
+    Variant(
+        'quiet-linter-fix-config-renamed', LINTER,
+        '        config = config or self.config\n        rule_pack = self.get_rulepack(config=config)\n        fixed_tree, violations, _, _ = self.lint_fix_parsed(\n            tree,\n            config,\n            rule_pack,\n',
+        '        active_config = config or self.config\n        fixed_tree, violations, _, _ = self.lint_fix_parsed(\n            tree,\n            config=active_config,\n            rule_pack=self.get_rulepack(active_config),\n',
+        "QUIET", None, 'R19a: `config or self.config` under another name, pack built inline',
+    ),
+    Variant(
+        'quiet-loader-child-keyword-renamed', LINTER,
+        '        file_config = root_config.make_child_from_path(fname)\n',
+        '        file_config: FluffConfig = root_config.make_child_from_path(path=fname)\n',
+        "QUIET", None, 'R19b: make_child_from_path(path=fname), annotated assignment',
+    ),
+    Variant(
+        'quiet-loader-return-tuple-local', LINTER,
+        '        return raw_file, file_config, encoding\n',
+        '        loaded = (raw_file, file_config, encoding)\n        return loaded\n',
+        "QUIET", None, 'R19b: returned tuple held whole in a local',
+    ),
+    Variant(
+        'quiet-parse_string-copy-split-keywords', LINTER,
+        '        config = (config or self.config).copy()\n\n        # Scan the raw file for config commands.\n        config.process_raw_file_for_config(in_str, fname)\n        rendered = self.render_string(in_str, fname, config, encoding)\n',
+        '        base_config = config or self.config\n        file_config = base_config.copy()\n\n        # Scan the raw file for config commands.\n        file_config.process_raw_file_for_config(in_str, fname)\n        rendered = self.render_string(\n            in_str=in_str, fname=fname, config=file_config, encoding=encoding\n        )\n',
+        "QUIET", None, 'R19b: copy split over two locals, render_string called with keywords',
+    ),
+    Variant(
+        'quiet-lint-stdin-child-config-local', CLI,
+        '            if stdin_filename:\n                lnt.config = lnt.config.make_child_from_path(\n                    stdin_filename, require_dialect=False\n                )\n            result = lnt.lint_string_wrapped(',
+        '            if stdin_filename:\n                child_config = lnt.config.make_child_from_path(\n                    stdin_filename, require_dialect=False\n                )\n                lnt.config = child_config\n            result = lnt.lint_string_wrapped(',
+        "QUIET", None, 'R19b: child config computed into a local, then assigned to lnt.config',
+    ),
+    Variant(
+        'quiet-stdin-fix-lint-positional', CLI,
+        '    result = linter.lint_string_wrapped(\n        stdin, fname="stdin", fix=True, stdin_filename=stdin_filename\n    )\n',
+        '    result = linter.lint_string_wrapped(stdin, "stdin", True, stdin_filename)\n',
+        "QUIET", None, 'R19b: lint_string_wrapped called positionally',
+    ),
+    Variant(
+        'quiet-fix-stdin-filename-early-else', CLI,
+        '            if stdin_filename:\n                lnt.config = lnt.config.make_child_from_path(\n                    stdin_filename, require_dialect=False\n                )\n            _stdin_fix(lnt, formatter, fix_even_unparsable, stdin_filename)\n',
+        '            if not stdin_filename:\n                pass\n            else:\n                lnt.config = lnt.config.make_child_from_path(\n                    path=stdin_filename, require_dialect=False\n                )\n            _stdin_fix(lnt, formatter, fix_even_unparsable, stdin_filename)\n',
+        "QUIET", None, 'R19b: `if not name: pass / else:` and path= keyword',
+    ),
+    Variant(
+        'quiet-paths-fix-unfixable-loop-sum', CLI,
+        '    num_unfixable = sum(p.num_unfixable_lint_errors for p in result.paths)\n',
+        '    num_unfixable = 0\n    for linted_dir in result.paths:\n        num_unfixable += linted_dir.num_unfixable_lint_errors\n',
+        "QUIET", None, 'R19c: generator sum spelled as an accumulating loop over result.paths',
+    ),
+    Variant(
+        'quiet-paths-fix-handle-unparsable-keywords', CLI,
+        '    exit_code = _handle_unparsable(fix_even_unparsable, exit_code, result, formatter)\n\n    # NB: We filter to linting violations here',
+        '    exit_code = _handle_unparsable(\n        fix_even_unparsable=fix_even_unparsable,\n        initial_exit_code=exit_code,\n        linting_result=result,\n        formatter=formatter,\n    )\n\n    # NB: We filter to linting violations here',
+        "QUIET", None, 'R19c: the discard helper called with keyword arguments',
+    ),
+    Variant(
+        'quiet-paths-fix-unfixable-truthiness-alias', CLI,
+        '    num_unfixable = sum(p.num_unfixable_lint_errors for p in result.paths)\n    if num_unfixable > 0:\n',
+        '    linted = result\n    unfixable_per_dir = [d.num_unfixable_lint_errors for d in linted.paths]\n    num_unfixable = sum(unfixable_per_dir)\n    if num_unfixable:\n',
+        "QUIET", None, 'R19c: result aliased, per-dir counts in a list first, `> 0` as truthiness',
+    ),
+    Variant(
+        'quiet-format-feu-shared-local', CLI,
+        '            _stdin_fix(\n                lnt, formatter, fix_even_unparsable=False, stdin_filename=stdin_filename\n            )\n        else:\n            _paths_fix(\n                lnt,\n                formatter,\n                paths,\n                processes,\n                fix_even_unparsable=False,\n',
+        '            _stdin_fix(lnt, formatter, False, stdin_filename)\n        else:\n            never_unparsable = False\n            _paths_fix(\n                lnt,\n                formatter,\n                paths,\n                processes,\n                fix_even_unparsable=never_unparsable,\n',
+        "QUIET", None, 'R19d: constant False passed positionally on one side, through a local on the other',
+    ),
+    Variant(
+        'quiet-fix-dispatch-keywords', CLI,
+        '            _stdin_fix(lnt, formatter, fix_even_unparsable, stdin_filename)\n',
+        '            _stdin_fix(\n                linter=lnt,\n                formatter=formatter,\n                fix_even_unparsable=fix_even_unparsable,\n                stdin_filename=stdin_filename,\n            )\n',
+        "QUIET", None, 'R19d: stdin driver called with keyword arguments',
+    ),
+    Variant(
+        'quiet-lint-stdin-filename-flag-local', CLI,
+        '            if stdin_filename:\n                lnt.config = lnt.config.make_child_from_path(\n                    stdin_filename, require_dialect=False\n                )\n            result = lnt.lint_string_wrapped(',
+        '            named_stdin = bool(stdin_filename)\n            if named_stdin:\n                lnt.config = lnt.config.make_child_from_path(\n                    stdin_filename, require_dialect=False\n                )\n            result = lnt.lint_string_wrapped(',
+        "QUIET", None, 'R19b: filename test hoisted into a boolean local (`bool(stdin_filename)`)',
+    ),
+    Variant(
+        'quiet-lint_string-subject-alias', LINTER,
+        '        rule_pack = self.get_rulepack(config=parsed.config)\n        # Lint the file and return the LintedFile\n        return self.lint_parsed(\n            parsed,\n',
+        '        rule_pack = self.get_rulepack(config=parsed.config)\n        target = parsed\n        # Lint the file and return the LintedFile\n        return self.lint_parsed(\n            target,\n',
+        "QUIET", None, 'R19a: the parsed file handed to the driver under a second name',
+    ),
+    Variant(
+        'quiet-stdin-fix-early-exit-split', CLI,
+        '    sys.exit(EXIT_FAIL if templater_error or unfixable_error else exit_code)\n',
+        '    failed = templater_error or unfixable_error\n    if failed:\n        exit_code = EXIT_FAIL\n    sys.exit(exit_code)\n',
+        "QUIET", None, 'R19c: exit decision through a flag local and an assignment instead of a conditional argument',
+    ),
+    Variant(
+        'quiet-sequential-runner-linter-local', RUNNER,
+        '                    rule_pack = self.linter.get_rulepack(config=rendered.config)\n                    yield self.linter.lint_rendered(\n                        rendered, rule_pack, partial.fix, self.linter.formatter\n                    )\n',
+        '                    linter = self.linter\n                    yield linter.lint_rendered(\n                        rendered,\n                        linter.get_rulepack(config=rendered.config),\n                        partial.fix,\n                        linter.formatter,\n                    )\n',
+        "QUIET", None, 'R19a: self.linter aliased, pack built inline in the driver call',
+    ),
+    Variant(
+        "quiet-parse_rendered-parsedstring-positional", LINTER,
+        "        return ParsedString(\n            parsed_variants=parsed_variants,\n            templating_violations=rendered.templater_violations,\n            time_dict=time_dict,\n            config=rendered.config,\n            fname=rendered.fname,\n            source_str=rendered.source_str,\n        )\n",
+        "        return ParsedString(\n            parsed_variants,\n            rendered.templater_violations,\n            time_dict,\n            rendered.config,\n            rendered.fname,\n            rendered.source_str,\n        )\n",
+        "QUIET", None, "R19a: ParsedString built positionally (field order taken from the class)",
+    ),
+    # breaking edits: must be reported
+    Variant("lint-stdin-filename-flag-inverted", CLI,
+            "            if stdin_filename:\n                lnt.config = lnt.config.make_child_from_path(\n                    stdin_filename, require_dialect=False\n                )\n            result = lnt.lint_string_wrapped(",
+            "            named_stdin = bool(stdin_filename)\n            if not named_stdin:\n                lnt.config = lnt.config.make_child_from_path(\n                    stdin_filename, require_dialect=False\n                )\n            result = lnt.lint_string_wrapped(",
+            "R19b", "lint", "flag local tested with the wrong polarity: the child config is built only when no filename is given"),
+    Variant("lint_string-pack-from-root-config-through-local", LINTER,
+            "        rule_pack = self.get_rulepack(config=parsed.config)\n        # Lint the file and return the LintedFile",
+            "        file_config = self.config\n        rule_pack = self.get_rulepack(config=file_config)\n        # Lint the file and return the LintedFile", "R19a", "lint_string",
+            "the local that feeds get_rulepack holds the linter's root config, not the parsed file's"),
+    Variant("lint-stdin-child-config-of-other-name", CLI,
+            "            if stdin_filename:\n                lnt.config = lnt.config.make_child_from_path(\n                    stdin_filename, require_dialect=False\n                )\n            result = lnt.lint_string_wrapped(",
+            "            if stdin_filename:\n                child_config = lnt.config.make_child_from_path(\n                    \"stdin\", require_dialect=False\n                )\n                lnt.config = child_config\n            result = lnt.lint_string_wrapped(",
+            "R19b", "lint", "child config (through a local) is built for the literal name 'stdin', not for --stdin-filename"),
+    Variant("paths-fix-unfixable-loop-before-discard", CLI,
+            "    exit_code = _handle_unparsable(fix_even_unparsable, exit_code, result, formatter)\n\n    # NB: We filter to linting violations here",
+            "    unfixable_before = 0\n    for linted_dir in result.paths:\n        unfixable_before += linted_dir.num_unfixable_lint_errors\n    exit_code = _handle_unparsable(\n        fix_even_unparsable=fix_even_unparsable, initial_exit_code=exit_code, linting_result=result, formatter=formatter\n    )\n    if unfixable_before:\n        exit_code = EXIT_FAIL\n\n    # NB: We filter to linting violations here",
+            "R19c", "_paths_fix", "loop-spelled unfixable count read before the (keyword-called) discard helper decides the exit status"),
     Variant(
         "stdin-fix-gets-per-file-fix-even-unparsable", CLI,
         "            _stdin_fix(lnt, formatter, fix_even_unparsable, stdin_filename)\n",
         "            _stdin_fix(lnt, formatter, lnt.config.get(\"fix_even_unparsable\"), stdin_filename)\n",
         "R19d", "fix", "seeded C19-1: the stdin branch reads the option from the per-file child config, the path branch from the root",
-    ),
-    Variant(
-        "quiet-stdin-fix-option-read-inline", CLI,
-        "            _stdin_fix(lnt, formatter, fix_even_unparsable, stdin_filename)\n",
-        "            _stdin_fix(lnt, formatter, config.get(\"fix_even_unparsable\"), stdin_filename)\n",
-        "QUIET", None, "same root-config read, spelled inline at one call site",
-    ),
-    # behaviour-preserving refactors: must stay quiet
-    Variant(
-        "quiet-stdin-fix-counts-after-discard-renamed", CLI,
-        "    if result.num_violations(types=SQLLintError, fixable=True) > 0:\n        stdout = result.paths[0].files[0].fix_string()[0]\n",
-        "    fixable_left = result.num_violations(types=SQLLintError, fixable=True)\n    if fixable_left > 0:\n        stdout = result.paths[0].files[0].fix_string()[0]\n",
-        "QUIET", None, "fixable count (read after the discard step) held in a local",
     ),
     Variant("lint_string-pack-from-pre-inline-config", LINTER,
             "        rule_pack = self.get_rulepack(config=parsed.config)\n        # Lint the file and return the LintedFile",
